@@ -32,7 +32,7 @@ E == [G |-> MkG(P0), start |-> <<Conf.lex.start>>,
       canon |-> Conf.canon = 1, maxlen |-> Conf.maxlen,
       sw |-> [clearOnRollback |-> Conf.sw.clearOnRollback = 1, keyRow |-> Conf.sw.keyRow = 1,
               keyPending |-> Conf.sw.keyPending = 1, resetLastForce |-> Conf.sw.resetLastForce = 1,
-              vendMax |-> Conf.sw.vendMax = 1]]
+              vendMax |-> Conf.sw.vendMax = 1, clearFFOnRollback |-> Conf.sw.clearFFOnRollback = 1]]
 Fuel == Conf.fuel
 
 ASSUME Reduced(P0, E.start)
